@@ -69,6 +69,21 @@ CHECKS.update({
          "Union, subtraction, negation and double negation over enumerated interval geometry (adjacent/overlapping/nested/equal-end ranges around every metacharacter), negated and "
          "mixed operands, Any, tokens and bare characters: exact set algebra over the whole code-point range, EmptyClassException iff nothing is left.", _CNOTE, "DESIGN.md §2 C07"),
 })
+CHECKS.update({
+ "C03": ("symbolic execution (CrossHair/z3) of the real constructors for symbolic names/characters/numbers, all paths; totality over enumerated DSL programs; export equivalence by bounded SMT (z3) exact encoding",
+         "For every group name up to the stated length (every code point), every class-constructor character, every Backreference number and small meta-pattern parameters: the call "
+         "raises only the documented library exception or returns text the real parser accepts. About 11k DSL programs incl. invalid arguments never raise a foreign exception and always "
+         "export a printable, compilable pattern; the exported text is equivalent to the internal one on all texts up to the bound.", _E1NOTE, "DESIGN.md §2 C03"),
+ "C09": ("enumerated quantifier x operand programs decided against the documented repeatability rule; symbolic execution (CrossHair/z3) for symbolic literals and bounds",
+         "42 quantifier forms x 112 operands: CannotBeRepeatedException exactly for bounds above one on the 7 direct anchor/look-around constructors (also over the empty pattern), never for "
+         "assertion-free operands; for EVERY literal string up to the stated length in every repeating spelling the exception is never raised (all paths confirmed).", _E1NOTE, "DESIGN.md §2 C09"),
+ "C10": ("enumerated assertion shapes decided against the structural width; symbolic execution (CrossHair/z3) for symbolic characters inside the assertion literal/class and symbolic repetition bounds",
+         "73 fixed / variable width assertion shapes x 4 look-behind constructors (classes and methods): NonFixedWidthPatternException iff the structural width is not a single value, accepted "
+         "constructions compile; the same for every character inside the assertion literal / class and every repetition bound in the stated range.", _E1NOTE, "DESIGN.md §2 C10"),
+})
+CHECKS["C04"] = (CHECKS["C04"][0] + "; symbolic execution (CrossHair/z3) with symbolic bounds n, m and greediness", CHECKS["C04"][1] +
+                 " Symbolic-bound harnesses: for every n, m in the stated integer range (and None) the real parser reads the emitted text as REPEAT(n, m, greedy|lazy, operand).",
+                 CHECKS["C04"][2], CHECKS["C04"][3])
 NOT_YET = "check not built yet in this round (work in progress; see DESIGN.md for the planned engine)"
 
 m = {
@@ -79,7 +94,7 @@ m = {
            "baseline_off_cmd": "cd /repo && /venv/bin/python -m pytest -ra -q -p no:cacheprovider --timeout=900 --continue-on-collection-errors",
            "source_commits": [], "add_only": True},
  "engines": [
-   {"name": "symx", "path": "vlib/symx/", "serves_properties": ["C01"],
+   {"name": "symx", "path": "vlib/symx/", "serves_properties": ["C01", "C03", "C04", "C09", "C10"],
     "kind_free_text": "CrossHair symbolic execution of the real pregex constructors together with CPython's pure-Python re parser; symbolic characters / ints; "
                       "per-path concolic self-validation; counterexamples followed up by rexsat and replayed"},
    {"name": "rexsat", "path": "vlib/rexsat.py", "serves_properties": sorted(CHECKS),
